@@ -1,14 +1,19 @@
 import IdpyVerif.Driver.C14
 import IdpyVerif.Driver.C17
+import IdpyVerif.Driver.Prov
 open Idpy
 
 structure DState where
   sdb : SessionDB.DB := []
+  prov : Driver.Prov.DS := {}
 
 def dispatch (st : DState) (fields : List String) : DState × String :=
   match fields with
   | "lv" :: args => (st, (Driver.C14.codec args).getD "bad-op")
   | "cookie" :: args => (st, (Driver.C17.handle args).getD "bad-op")
+  | "prov" :: args =>
+    let (p', out) := Driver.Prov.stepLine st.prov args
+    ({ st with prov := p' }, out)
   | "sdb" :: args =>
     let (db', out) := Driver.C14.stepLine st.sdb args
     ({ st with sdb := db' }, out)
